@@ -19,7 +19,7 @@ import (
 )
 
 type vfC18Case struct {
-	Outcomes []int // per job: 0 success, 1 error, 2 not-found error
+	Outcomes []int // per job: 0 success, 1 error, 2 not-found error, 3 an error wrapping context.DeadlineExceeded / context.Canceled of the job's own I/O (the request context stays live)
 	Limit    int   // -1 unlimited, else 1..n
 	Order    []int // completion order (a permutation of the jobs, feasible for Limit)
 	ViaGroup bool  // call through JobGroup.RunWithConcurrency
@@ -45,6 +45,12 @@ func vfC18eval(c *vfC18Case) error {
 			jobErr[i] = fmt.Errorf("job %d failed", i)
 		case 2:
 			jobErr[i] = fmt.Errorf("job %d: %w", i, compactindexsized.ErrNotFound)
+		case 3:
+			if i%2 == 0 {
+				jobErr[i] = fmt.Errorf("job %d: remote index read: %w", i, context.DeadlineExceeded)
+			} else {
+				jobErr[i] = fmt.Errorf("job %d: remote index read: %w", i, context.Canceled)
+			}
 		}
 		fns[i] = func(ctx context.Context) (uint64, error) {
 			close(started[i])
@@ -238,14 +244,14 @@ func TestVfC18Exhaustive(t *testing.T) {
 	for n := 1; n <= maxN; n++ {
 		total := 1
 		for i := 0; i < n; i++ {
-			total *= 3
+			total *= 4
 		}
 		for code := 0; code < total; code++ {
 			outcomes := make([]int, n)
 			x := code
 			for i := range outcomes {
-				outcomes[i] = x % 3
-				x /= 3
+				outcomes[i] = x % 4
+				x /= 4
 			}
 			limits := []int{-1}
 			for k := 1; k <= n; k++ {
@@ -291,7 +297,7 @@ func TestVfC18Rapid(t *testing.T) {
 	rapid.Check(t, func(rt *rapid.T) {
 		n := rapid.IntRange(4, maxN).Draw(rt, "n")
 		c := &vfC18Case{}
-		c.Outcomes = rapid.SliceOfN(rapid.SampledFrom([]int{0, 1, 1, 2, 2}), n, n).Draw(rt, "outcomes")
+		c.Outcomes = rapid.SliceOfN(rapid.SampledFrom([]int{0, 1, 1, 2, 2, 3, 3}), n, n).Draw(rt, "outcomes")
 		c.Limit = rapid.SampledFrom([]int{-1, 1, 2, 3, n - 1, n}).Draw(rt, "limit")
 		c.ViaGroup = rapid.Bool().Draw(rt, "viaGroup")
 		limit := c.Limit
